@@ -70,7 +70,7 @@ def h_gv_intlist(ctx: Ctx, cfg):
     _gv(ctx, IntList(els), int, None, lambda v: any(v == e for e in els), "IntList")
 
 
-FT = [-1.5, 0.0, 0.25, 3.0]
+FT = [-1.5, 0.0, 0.25, 1.0 / 3.0, 0.1234567, 3.0]
 
 
 def h_gv_floatrange(ctx: Ctx, cfg):
@@ -83,7 +83,7 @@ def h_gv_floatrange(ctx: Ctx, cfg):
 
 def h_gv_floatlist(ctx: Ctx, cfg):
     n = ctx.cint(1, cfg["n"], "n")
-    els = [ctx.pick(FT, "el") for _ in range(n)]
+    els = [ctx.pick(FT[1:5], "el") for _ in range(n)]
     _gv(ctx, FloatList(els), float, None, lambda v: v in els, "FloatList")
 
 
